@@ -127,6 +127,10 @@ var depBodies = []string{
 	"dynamic \"blk\" {\n  for_each = [s]\n  iterator = s\n  content {\n    x = s.value\n  }\n}\n",
 	"dynamic \"blk\" {\n  for_each = l\n  content {\n    x = q\n    dynamic \"inner\" {\n      for_each = [blk.value, s]\n      content {\n        y = \"${inner.value}${blk.key}\"\n      }\n    }\n  }\n}\n",
 	"blk {\n  dynamic \"inner\" {\n    for_each = m\n    content {\n      y = inner.key\n    }\n  }\n  x = s\n}\n",
+	// the iterator has the name of a global variable that its own for_each (where the iterator is not in scope) refers to
+	"dynamic \"blk\" {\n  for_each = l\n  iterator = l\n  content {\n    x = l.value\n  }\n}\n",
+	"blk {\n  dynamic \"inner\" {\n    for_each = [for k, v in m : \"${k}${s}\"]\n    iterator = m\n    content {\n      y = m.value\n    }\n  }\n}\n",
+	"dynamic \"blk\" {\n  for_each = [s]\n  iterator = s\n  labels = []\n  content {\n    x = \"${s.value}${q}\"\n  }\n}\n",
 }
 
 var depSpec = hcldec.ObjectSpec{
